@@ -43,3 +43,34 @@ def run_sessions(pid, drv, sessions, name, nproc=8, par=8, timeout=2400):
 
 def validate(pid, lines, name):
     return V.validate_traces(pid, "Trace_Session", "Trace_Session.cfg", lines, lambda l: True, timeout=2400, name=name, xss="256m")
+
+
+def handshake_cancellation(run, pid, drv, rng, npairs):
+    """Cancellation during the handshake (C10's last sentence; Handshake!CancelEndsIt): the caller cancels while the
+    client waits for the server's hello, or while its addendum write is blocked because the server stopped reading."""
+    reps = representatives()
+    pairs = [(54460, 54460), (0, 54458), (54457, 54460), (54458, 54458)] + [(rng.choice(reps), rng.choice(reps)) for _ in range(npairs)]
+    sessions = []
+    for c, s in pairs:
+        for beh, cancel in (("stall", 30), ("stall", 150), ("blockw", 30), ("blockw", 150), ("late", 50)):
+            sessions.append({"id": "hc-%d" % (len(sessions) + 1), "crev": c, "srev": s, "behaviour": beh, "delayMs": 110 if beh == "late" else 0,
+                             "cancelMs": cancel, "database": "", "user": "u", "password": "", "quotaKey": rng.choice(["", "k", "quota-key"]),
+                             "scn": "", "compression": "disabled", "queryID": "q", "body": "SELECT 1", "rounds": 1, "seed": 1})
+    lines = run_sessions(pid, drv, sessions, "hs-cancel", nproc=4, par=8)
+    v = validate(pid, lines, "tv-hs-cancel")
+    V.log("  handshake cancellation: %d dials cancelled while waiting for the hello / blocked in the addendum write, %d accepted, %d rejected" % (
+        v.lines, v.accepted_lines, len(v.rejections)))
+
+    def key(rj):
+        try:
+            e = json.loads(rj["line"])
+            return "hs-cancel:%s:result=%s,closed=%s" % (e["behaviour"], e["result"], e["connClosed"])
+        except Exception:
+            return "hs-cancel:?"
+
+    def desc(rj):
+        e = json.loads(rj["line"])
+        return "handshake client=%s server=%s behaviour=%s, cancelled after %s ms: result=%s usable=%s connClosed=%s elapsed=%sms" % (
+            e["crevEff"], e["srev"], e["behaviour"], e["cancelMs"], e["result"], e["usable"], e["connClosed"], e["elapsedMs"])
+    run.add_trace_rejections(v, key, desc)
+    run.coverage["handshake_cancellations"] = v.lines
